@@ -13,17 +13,17 @@ META = {
 
 
 def run(run, model):
-    gates.c01_gate(run, model)
-    gates.c01_read_live(run, model, "C01.read-live", ("PRE",))
+    run.do(gates.c01_gate, model)
+    run.do(gates.c01_read_live, model, "C01.read-live", ("PRE",))
     for role, ck in gates.checkers(model).items():
         h = loops.helper_of(model, ck, "PRE")
         if h is None:
             continue
         fi, lp, mp = h
-        loops.analyse_verdict(run, "C01.verdict", model, fi, lp, mp, 2)
-    common.truth_rule(run, model, "C01.truth")
-    common.kind_uniform(run, model, "C01.kind-uniform")
-    common.append_rules(run, model, "C01.append", which=("pre",))
+        run.do(loops.verdict_rule, model, "C01.verdict", fi, lp, mp, 2)
+    run.do(common.truth_rule, model, "C01.truth")
+    run.do(common.kind_uniform, model, "C01.kind-uniform")
+    run.do(common.append_rules, model, "C01.append", which=("pre",))
     run.minimum("C01.gate", 2, "sync and async checker wrapper")
     run.minimum("C01.iter-all", 2)
     run.minimum("C01.verdict", 2)
